@@ -685,9 +685,13 @@ def divideDaughter (fuel : Nat) (here : Path) (mother : String) (acc : DivAcc)
   let topology := match KV.lookup "topology" dk with
     | some tp => tp
     | none => (getTopology m).getD (.dict [])
+  -- a daughter that brings her own processes or steps and no flow: her steps are legacy derivers (fix F57);
+  -- only a daughter that names neither inherits the mother's flow
+  let inherited : Val :=
+    if KV.has "processes" dk || KV.has "steps" dk then .dict [] else (getFlow m).getD (.dict [])
   let flow := match KV.lookup "flow" dk with
-    | some fl => if fl.truthy then fl else (getFlow m).getD (.dict [])
-    | none => (getFlow m).getD (.dict [])
+    | some fl => if fl.truthy then fl else inherited
+    | none => inherited
   let rootP ← generate fuel here [k] processes (.dict []) flow topology merged
   let tps ← lift (topLevelPaths rootP topology)
   applySubschemaPath fuel here [k]
